@@ -3,62 +3,78 @@ import Rangers.Basic.Line
 import Rangers.Basic.Keccak
 import Rangers.Model.Trie
 import Rangers.Model.TrieStore
+import Rangers.Model.TrieLive
 /-
-C02 line-protocol driver.  State = the model trie (`Trie.Node`).
-  new | upd k v | del k | get k | hash | commit | reopen | dbcommit | cachelimit n | iter start | keccak x
-`commit` and `cachelimit` do not touch the model state; `reopen`/`dbcommit` run the model's
-commit-and-reload (`Trie.reload`).  That all four are no-ops on content in the implementation
-is what the correspondence run checks.
+C02 line-protocol driver.  State = the live trie model (`Trie.LTrie`: nodes with cache flags,
+hash nodes, cache generation / limit, node database).
+  new | upd k v | del k | get k | hash | commit | reopen | dbcommit | cachelimit n | iter start | shape | keccak x
+`Props/C02Live` proves that this machine observes exactly what the flag-free, fully loaded
+model `Trie.Node` (`Props/C02`) observes.
 -/
 namespace Rangers.Drive.C02
 open Rangers Rangers.Trie
 
 def H := Keccak.keccak256
 
-def showRoot (t : Node) : String := toHex (rootHash H t)
-
 def showIter (l : List (Bytes × Bytes)) : String :=
   "n=" ++ toString l.length ++ String.join (l.map (fun e => " " ++ toHex e.1 ++ ":" ++ toHex e.2))
 
-/-- `Commit` + `NewTrie(root, db)`: the model collapses the trie into store entries and expands
-    the root hash again (`Trie.reload`); by `Props.C02.expand_collapse` this is the identity. -/
-def reopen (t : Node) : Node × String :=
-  match reload H t with
-  | some t' => (t', showRoot t')
-  | none => (t, "model-reload-failed")
+/-- `Commit` + `NewTrie(root, db)`; the harness re-applies the cache limit to the new trie -/
+def reopen (t : LTrie) : LTrie × String :=
+  let r := t.commit H
+  match LTrie.open r.2.db r.1 with
+  | some t' => ({ t' with limit := t.limit }, toHex r.1)
+  | none => (r.2, "err-missing-node")
 
-def step (t : Node) (line : String) : Node × String :=
+def step (t : LTrie) (line : String) : LTrie × String :=
   match splitWords line with
-  | ["new"] => (.nil, "ok")
+  | ["new"] => (LTrie.empty, "ok")
   | ["upd", k, v] =>
     match ofHex? k, ofHex? v with
-    | some k, some v => (update t k v, "ok")
+    | some k, some v =>
+      match t.update k v with
+      | some t' => (t', "ok")
+      | none => (t, "model-error")
     | _, _ => (t, "bad-op")
   | ["del", k] =>
     match ofHex? k with
-    | some k => (remove t k, "ok")
+    | some k =>
+      match t.remove k with
+      | some t' => (t', "ok")
+      | none => (t, "model-error")
     | none => (t, "bad-op")
   | ["get", k] =>
     match ofHex? k with
-    | some k => (t, match lookup t k with | some v => "v=" ++ toHex v | none => "absent")
+    | some k =>
+      match t.get k with
+      | some (some v, t') => (t', "v=" ++ toHex v)
+      | some (none, t') => (t', "absent")
+      | none => (t, "model-error")
     | none => (t, "bad-op")
-  | ["hash"] => (t, showRoot t)
-  | ["commit"] => (t, showRoot t)
+  | ["hash"] => let r := t.hash H; (r.2, toHex r.1)
+  | ["commit"] => let r := t.commit H; (r.2, toHex r.1)
   | ["reopen"] => reopen t
   | ["dbcommit"] => reopen t
   | ["cachelimit", n] =>
     match n.toNat? with
-    | some n => if n < 65536 then (t, "ok") else (t, "bad-op")
+    | some n => if n < 65536 then ({ t with limit := n }, "ok") else (t, "bad-op")
     | none => (t, "bad-op")
   | ["iter", s] =>
     match ofHex? s with
-    | some s => (t, showIter (iterFrom t s))
+    | some s =>
+      -- `newNodeIterator` calls `trie.Hash()` (which caches hashes in the root), then walks,
+      -- resolving hash nodes without touching the trie
+      let t' := (t.hash H).2
+      match expandFull t'.db 4096 t'.root with
+      | some n => (t', showIter (iterFrom n s))
+      | none => (t', "err-missing-node")
     | none => (t, "bad-op")
+  | ["shape"] => (t, shapeL t.root ++ " g" ++ toString t.gen)
   | ["keccak", x] =>
     match ofHex? x with
     | some x => (t, toHex (H x))
     | none => (t, "bad-op")
   | _ => (t, "bad-op")
 
-def run : IO Unit := runLines Node.nil step
+def run : IO Unit := runLines LTrie.empty step
 end Rangers.Drive.C02
